@@ -35,7 +35,8 @@ Db0 == << [key |-> <<"g", 1>>, dyn |-> FALSE, cls |-> << [id |-> 1, head |-> G(A
 
 CONSTANTS N,        \* maximal length of the inner goal
           OUTER,    \* TRUE: also run every skeleton behind an older choice point g(A)
-          AFTER     \* TRUE: also continue after the OUTER catch/3 has exited (both catches exited) with a throw
+          AFTER,    \* TRUE: also continue after the OUTER catch/3 has exited (both catches exited) with a throw
+          PRE       \* TRUE: also bind the outer catcher variable before the call
 
 Inner(g1, c1, r1, k, c2) == C("catch", << Conj2(C("catch", <<Conj(g1), c1, r1>>), k), c2, W(C("r2", <<Y, Z>>)) >>)
 Queries == { Inner(g1, c1, r1, k, c2) : g1 \in Seqs(N), c1 \in Catchers1, r1 \in Recov1, k \in Conts, c2 \in Catchers2 }
@@ -50,11 +51,17 @@ gvars == <<st, hist, q>>
 \* (the components are enumerated, not the set AllQueries: building and normalising a set of 10^5 deep terms takes TLC longer
 \* than exploring them)
 NoK2 == A("$none")
+\* the catcher of the OUTER catch/3 (a goal of the query itself, not compiled by a call/1 with the bindings applied) may be a
+\* variable that an earlier goal has already bound - to the ball, or to something the ball does not unify with: catch/3 must
+\* unify the catcher, not overwrite it
+PreBound == { NoK2, B1, A("other"), B(A("b")) }
 GInit == \E g1 \in Seqs(N), c1 \in Catchers1, r1 \in Recov1, k \in Conts, c2 \in Catchers2,
             k2 \in (IF AFTER THEN Conts2 \cup {NoK2} ELSE {NoK2}), o \in (IF OUTER THEN BOOLEAN ELSE {FALSE}) :
+          \E pb \in (IF c2 = V(5) /\ PRE THEN PreBound ELSE {NoK2}) :
             LET q0 == Inner(g1, c1, r1, k, c2)
                 q1 == IF k2 = NoK2 THEN q0 ELSE Conj2(q0, k2)
-            IN /\ q = (IF o THEN Conj2(G(V(8)), q1) ELSE q1)
+                q2 == IF pb = NoK2 THEN q1 ELSE Conj2(C("=", <<V(5), pb>>), q1)
+            IN /\ q = (IF o THEN Conj2(G(V(8)), q2) ELSE q2)
                /\ st = InitStateX(Db0, q, 8, 9)
                /\ hist = <<>>
 
